@@ -1598,4 +1598,24 @@ theorem prim_sameVars (f : Nat) (b : Builtin) (s s' : St)
       | (cases h; done)
       | (cases h; vars_chain; exact ⟨rfl, rfl⟩)
 
+/-! ### `==` on function bodies is structural equality -/
+
+mutual
+theorem tokEq_iff : ∀ (a b : BTok), tokEq a b = true ↔ a = b
+  | .int x, b => by cases b <;> simp [tokEq]
+  | .str x, b => by cases b <;> simp [tokEq]
+  | .quoted x, b => by cases b <;> simp [tokEq]
+  | .name x, b => by cases b <;> simp [tokEq]
+  | .fn x, b => by
+    cases b with
+    | fn y => simp only [tokEq, toksEq_iff x y, Bst.Tok.fn.injEq]
+    | _ => simp [tokEq]
+theorem toksEq_iff : ∀ (x y : List BTok), toksEq x y = true ↔ x = y
+  | [], y => by cases y <;> simp [toksEq]
+  | a :: r, y => by
+    cases y with
+    | nil => simp [toksEq]
+    | cons b t => simp only [toksEq, Bool.and_eq_true, tokEq_iff a b, toksEq_iff r t, List.cons.injEq]
+end
+
 end Pybtex.Interp
